@@ -102,6 +102,22 @@ Definition rhs_apply (n : nat) (uls : list ulik) (pfs : list (mat * vec)) : vec 
   Vadd (vsum_list n (map (fun u => adj (u_model u) (Matvec (u_prec u) (u_data u))) uls))
        (vsum_list n (map (fun pf => Matvec (fst pf) (snd pf)) pfs)).
 
+(* ---------- a sampler that outlives an in-place re-assignment of a parameter of its target ----------
+   LinearRTO (both interfaces) CAPTURES at construction (_precompute / legacy __init__): the list L1 of noise sqrtprecs
+   (used for b_tild and in flag 1), the prior's sqrtprec and sqrtprecTimesMean, and b_tild (hence the data).  It reads LIVE,
+   on every call of M: likelihood.model (both flags), len(likelihood.data) and -- in flag 2 only --
+   likelihood.distribution.sqrtprec.  `captured` are the likelihoods as they were at construction, `live` as they are now.
+   Flag2Captured is the proposed repair (fixes/C06_rto_flag2_captured_sqrtprec.diff): flag 2 uses the captured L1 too. *)
+Inductive flag2_read := Flag2Live | Flag2Captured.
+Definition stale_adj_liks (v : flag2_read) (captured live : list lik) : list lik :=
+  match v with Flag2Captured => captured | Flag2Live => live end.
+Definition stale_M_fwd (captured : list lik) (pr : prior) (x : vec) : vec := M_fwd captured pr x.
+Definition stale_M_adj (v : flag2_read) (n : nat) (captured live : list lik) (pr : prior) (y : vec) : vec :=
+  M_adj n (stale_adj_liks v captured live) pr y.
+(* what an in-place re-assignment may have changed between construction and now *)
+Definition same_noise (c l : lik) : Prop :=
+  l_L l = l_L c /\ length (l_data l) = length (l_data c) /\ adj (l_model l) = adj (l_model c).
+
 (* ---------- Gaussian(.., sqrtprec = scalar | vector | matrix): get_sqrtprec_from_sqrtprec ---------- *)
 Fixpoint diag_of (v : vec) : mat :=
   match v with
@@ -341,6 +357,18 @@ Definition check_precompute (tol : Q) (n : nat) (ls : list (qmatT * qmatT * qvec
   seg_close tol lens o_b (q_b_tild liks pr) &&
   segs_close tol lens o_fwd (map (fun j => q_M_fwd liks pr (qunit n j)) (seq 0 n)) &&
   rows_close tol lens o_adj (map (fun i => q_M_adj n liks pr (qunit p i)) (seq 0 p)).
+
+(* the same for a sampler observed AFTER an in-place re-assignment: b_tild and flag 1 from the captured likelihoods,
+   flag 2 from ls_adj (= captured, or live where the code reads the distribution again) *)
+Definition check_precompute2 (tol : Q) (n : nat) (ls ls_adj : list (qmatT * qmatT * qvecT)) (pr : prior Qc)
+           (o_b : qvecT) (o_fwd o_adj : qmatT) : bool :=
+  let liks := mk_liks n ls in
+  let p := length (q_b_tild liks pr) in
+  let lens := block_lens liks pr in
+  forallb (lik_shape_ok n) ls && forallb (lik_shape_ok n) ls_adj &&
+  seg_close tol lens o_b (q_b_tild liks pr) &&
+  segs_close tol lens o_fwd (map (fun j => q_M_fwd liks pr (qunit n j)) (seq 0 n)) &&
+  rows_close tol lens o_adj (map (fun i => q_M_adj n (mk_liks n ls_adj) pr (qunit p i)) (seq 0 p)).
 
 (* certificate for one transition: the returned point satisfies the normal equations of the MODEL's (M, b_tild), to
    within tol times the larger of |M^T y| and the initial normal residual |M^T (y - M x_cur)| (CGLS's own notion of
